@@ -1,6 +1,6 @@
 (* C17 -- the packrat memo.  Theorems about the storage model (Nom/Peg.v: map_get / memo_insert, the
    definitions the interpreter uses) -- see KNOWN_FINDINGS for what the parser built on top of it does. *)
-From SV Require Import Peg PegFacts Cache GenGrammar.
+From SV Require Import Peg PegFacts Cache Mono Transp GenGrammar.
 Local Open Scope nat_scope.
 
 (* nom-packrat's storage is a transparent cache of ANY function of the key (parser name, position,
@@ -30,3 +30,34 @@ Example C17_example :
   fst (memo_calls unit F (mkPst unit [] [] (Some 2) tt) ks) = map F ks /\
   length (ps_keys unit (snd (memo_calls unit F (mkPst unit [] [] (Some 2) tt) ks))) = 2.
 Proof. vm_compute. split; reflexivity. Qed.
+
+(* Packrat correctness for the interpreter.  For EVERY grammar in which no production carries the
+   left-recursion guard and whose state actions change nothing -- that is, whenever the result of a
+   production is a function of what the memo key records -- and for every expression, input,
+   behaviour of the primitives and position: two memoised runs from the empty memo, whatever their
+   capacities (bounded or not, so whatever was evicted on the way), fuels and guard flags, that both
+   finish, return the same result -- the result of the memo-free interpreter
+   ([Transp.memo_transparent]).  What the real parser has beyond this hypothesis -- the guard flags
+   of nom-recursive and the keyword-version stack, both outside the key -- is therefore exactly where
+   the capacity dependence D12 comes from. *)
+Theorem C17_capacity_independent_without_hidden_state :
+  forall (A : Type) prim act cond dirflag (inp : list N) (g : list prod),
+  (forall a x, act a x = x) -> (forall n pr, nth_error g n = Some pr -> p_rec pr = false) ->
+  forall e p (a : A) f1 rf1 cap1 r1 s1 f2 rf2 cap2 r2 s2,
+  run A prim act cond dirflag inp g f1 e p rf1 (mkPst A [] [] cap1 a) = (r1, s1) -> r1 <> Fuel ->
+  run A prim act cond dirflag inp g f2 e p rf2 (mkPst A [] [] cap2 a) = (r2, s2) -> r2 <> Fuel -> r1 = r2.
+Proof. intros A prim act cond dirflag inp g Hact Hrec. exact (capacity_independent A prim act cond dirflag inp g Hact Hrec). Qed.
+
+(* ... and in general (any grammar, guard and state actions included) the fuel is only a device:
+   a run that finishes returns the same result and state with any larger fuel, so the result of a
+   parse with a given memo content is unique. *)
+Theorem C17_result_independent_of_fuel :
+  forall (A : Type) prim act cond dirflag (inp : list N) (g : list prod) f1 f2 e p rf st r1 s1 r2 s2,
+  run A prim act cond dirflag inp g f1 e p rf st = (r1, s1) -> r1 <> Fuel ->
+  run A prim act cond dirflag inp g f2 e p rf st = (r2, s2) -> r2 <> Fuel -> r1 = r2 /\ s1 = s2.
+Proof. intros A prim act cond dirflag inp g. exact (run_unique A prim act cond dirflag inp g). Qed.
+
+(* how much of the regenerated grammar falls under the hypothesis: the productions without guard *)
+Example C17_guarded_productions :
+  length (filter (fun pr => p_rec pr) grammar) <= 100 /\ 1200 <= length (filter (fun pr => negb (p_rec pr)) grammar).
+Proof. vm_compute. split; repeat constructor. Qed.
